@@ -9,6 +9,7 @@ import (
 	"fmt"
 	"io"
 	"strconv"
+	"strings"
 	"testing"
 
 	"github.com/alibaba/RedisShake/verifrt/ev"
@@ -383,6 +384,18 @@ func c10Trees(t *testing.T, br *countingReader, r *bufio.Reader) {
 			}
 		}
 		ev.Nontrivial(ev.Hash(stream))
+	}
+	// every tree on its own through every buffering (a value must not alias a buffer that is
+	// refilled while the rest of the array is still being read)
+	for _, tr := range trees {
+		run([]*respref.Node{tr}, []int{1})
+	}
+	// longer status/error texts inside arrays, followed by more elements
+	long := leaf('+', "QUEUED-and-a-longer-status-text")
+	lerr := leaf('-', "ERR wrong kind of value")
+	big := leaf('$', strings.Repeat("payload-", 8))
+	for _, inner := range [][]*respref.Node{{long, lerr, big}, {lerr, {Kind: ':', Int: 524289}, long, big, long}, {long, {Kind: '*', Elems: []*respref.Node{lerr, big, long}}, lerr}} {
+		run([]*respref.Node{{Kind: '*', Elems: inner}, long}, []int{0, 2})
 	}
 	for _, a := range streamVals {
 		for _, b := range streamVals {
